@@ -33,6 +33,9 @@ func moreProps(m map[string]*propCfg) {
 	add(&propCfg{ID: "C14", Engine: "startsim", Level: "exploration", Families: []famShare{{gen.FamClose, 1}}, QProgs: 160, QK: 10, TProgs: 480, TK: 40,
 		Rule:      "generated programs with 0-12 closers (eager, lazy, named, unnamed); after a successful Run, App.Close runs inside the bubble; every closer parks inside its Close(); the scheduler releases them one at a time in a seed-chosen order, a seed-chosen subset returns errors; invariants are evaluated at every quiescent point. Non-trivial = at least two quiescent points during Close (>= 1 closer parked); distinct = distinct (program shape, release order / fault set hash).",
 		Technique: "deterministic simulation (closesim): App.Close inside a testing/synctest bubble, closers parked in their own callback and released in a seeded order; invariants at every quiescent point (bounded liveness without wall clock)"})
+	add(&propCfg{ID: "C20", Engine: "racesim+linsim", Level: "exploration", Families: []famShare{{gen.FamRace, 1}}, QProgs: 24, QK: 6, TProgs: 64, TK: 12,
+		Rule:      "two engines. racesim: programs with 8-60 components and 1-3 custom tag scanners (N x P scanner goroutines) and closers are started and closed under the Go race detector with the scheduler in parallel mode (tasks are released in waves, harness callbacks do no synchronisation between release and return); in half of the runs several scanner invocations fail in the same round, in the other half a subset of closers fails. linsim: util/sync2.Map, util/list.ConcurrentSets and gcset are compiled from a scratch copy with a yield point before every statement; 2-4 clients issue 2-6 operations each over 1-3 keys with unique values, exactly one client runs at a time and the seeded Chooser decides who continues at every yield; histories are checked with porcupine against a sequential map / set, once with Range as one step and once with Range interleavable. Non-trivial = a racesim run with >= 2 tasks released together, or a linsim history in which operations of different clients overlap; distinct = distinct histories / (program shape, fault set).",
+		Technique: "deterministic simulation: (racesim) real-parallel release of parked scanner / closer goroutines under the Go race detector (happens-before oracle); (linsim) cooperative single-runner scheduling at AST-inserted yield points + porcupine linearizability check against a sequential model"})
 	add(&propCfg{ID: "C11", Engine: "startsim", Level: "exploration", Families: []famShare{{gen.FamEmbed, 1}}, QProgs: 200, QK: 4, TProgs: 600, TK: 8,
 		Rule:      "twin programs: a flat program (wire / func / value / prop / prefix / custom-tagged fields declared directly) and its re-arrangement with the same fields inside anonymous, untagged, by-value embedded structs (depth 1-3, exported and unexported carriers); frame fields of every kind (untagged, unexported-but-tagged, foreign-tagged, inside a named struct field, inside a tagged embedded struct, inside an embedded pointer) carrying sentinels; 0-2 custom tag scanners that park inside the parallel scanning phase. Both twins run under the same picks. Non-trivial = the program has embedded points, frame or custom-tagged fields; distinct = distinct (program shape, registry path signature).",
 		Technique: "deterministic simulation (startsim): twin programs under identical schedules, custom scanners interleaved inside the parallel scanning phase; oracle: twin equivalence + frame sentinels + recording tag processor"})
@@ -63,8 +66,23 @@ func corpus(pc *propCfg, batchNo int, tier string) []*sdl.Program {
 	return nil
 }
 
-func makeOtherJobs(pc *propCfg, b *batch, tier string, seed uint64, batchNo, workers int, remainS float64) []*proto.Job {
-	return nil
+// makeOtherJobs builds the jobs of the engines that need no generated program (linsim).
+func makeOtherJobs(pc *propCfg, b *batch, phase, tier string, seed uint64, batchNo, workers int, remainS float64) []*proto.Job {
+	var jobs []*proto.Job
+	cases := 3000.0
+	budget := 0.0
+	if tier == "thorough" {
+		cases = 1e9
+		budget = remainS - 20
+		if budget < 20 {
+			budget = 20
+		}
+	}
+	for w := 0; w < workers; w++ {
+		jobs = append(jobs, &proto.Job{Mode: "check", Property: pc.ID, Tier: tier, Seed: mix(seed, uint64(batchNo)), ProgIdx: []int{w},
+			Budget: budget, Params: map[string]float64{"linsim": 1, "linCases": cases}})
+	}
+	return jobs
 }
 
 // attributeCrash turns a dead or stalled worker into a finding for the properties that
@@ -104,11 +122,83 @@ func attributeCrash(pc *propCfg, b *batch, wo *workerOut, job *proto.Job) (*prot
 	return f, ""
 }
 
-func attributeRace(pc *propCfg, b *batch, wo *workerOut, job *proto.Job) ([]proto.Finding, string) {
-	return nil, "unexpected race report in a non-race check:\n" + clip(wo.race, 2000)
+// attributeRace turns a race-detector report into a C20 finding for the run that was
+// active when the worker halted (halt_on_error=1). It also returns the job for the
+// programs the halted worker had not reached yet. A report without a go-kid/ioc frame in
+// either access is a harness bug (trouble, exit 2).
+func attributeRace(pc *propCfg, b *batch, wo *workerOut, job *proto.Job) ([]proto.Finding, string, *proto.Job) {
+	if pc.ID != "C20" {
+		return nil, "unexpected race report in a non-race check:\n" + clip(wo.race, 2000), nil
+	}
+	rep := wo.race
+	if i := strings.Index(rep, "WARNING: DATA RACE"); i >= 0 {
+		rep = rep[i:]
+	}
+	if j := strings.Index(rep, "=================="); j > 0 {
+		rep = rep[:j]
+	}
+	// the two accesses: stack blocks up to "Goroutine ... created at" / "Previous ..."
+	inIoc := strings.Contains(rep, repoDir+"/") || strings.Contains(rep, "github.com/go-kid/ioc/")
+	var pid string
+	idx := -1
+	if _, err := fmt.Sscanf(wo.last, "run %s", &pid); err == nil {
+		for i, p := range b.progs {
+			if p.ID == pid {
+				idx = i
+			}
+		}
+	}
+	if idx < 0 {
+		return nil, "race report could not be attributed to a run (last progress line: " + wo.last + ")\n" + clip(rep, 1500), nil
+	}
+	var rest *proto.Job
+	for i, pi := range job.ProgIdx {
+		if pi == idx {
+			r := *job
+			r.ProgIdx = append([]int(nil), job.ProgIdx[i+1:]...)
+			rest = &r
+		}
+	}
+	if !inIoc {
+		return nil, "race report without a go-kid/ioc frame (harness bug):\n" + clip(rep, 2500), rest
+	}
+	key := raceKey(rep)
+	f := proto.Finding{Violation: model.Violation{Property: "C20", Oracle: "data-race", Key: key,
+		Detail: "the race detector reported unsynchronised conflicting accesses during program " + pid + ": " + clip(strings.ReplaceAll(rep, "\n", " | "), 1800)},
+		Case: &proto.Case{Property: "C20", Engine: "racesim", Prog: b.progs[idx], Extra: map[string]any{"k": job.K, "seed": job.Seed}}, Reproduced: true}
+	return []proto.Finding{f}, "", rest
 }
 
-func moreCoverage(pc *propCfg, a *agg, cov map[string]any) {}
+// raceKey extracts the innermost go-kid/ioc frames of the two accesses (stable across runs).
+func raceKey(rep string) string {
+	var keys []string
+	lines := strings.Split(rep, "\n")
+	for i, l := range lines {
+		if strings.Contains(l, "github.com/go-kid/ioc/") && i+1 < len(lines) {
+			fn := strings.TrimSuffix(strings.TrimSpace(l), "()")
+			fn = strings.TrimPrefix(fn, "github.com/go-kid/ioc/")
+			dup := false
+			for _, k := range keys {
+				if k == fn {
+					dup = true
+				}
+			}
+			if !dup {
+				keys = append(keys, fn)
+			}
+			if len(keys) >= 2 {
+				break
+			}
+		}
+	}
+	return strings.Join(keys, " <-> ")
+}
+
+func moreCoverage(pc *propCfg, a *agg, cov map[string]any) {
+	if a.yieldPoints != 0 {
+		cov["linsim_yield_points_inserted"] = a.yieldPoints
+	}
+}
 
 func selfAssessMore(pc *propCfg, tier string, a *agg) string {
 	if a.nontrivial == 0 {
@@ -140,17 +230,29 @@ func replayFile(path string, quiet bool) (bool, string) {
 	if rf.Case.Prog != nil {
 		progs = []*sdl.Program{rf.Case.Prog}
 	}
-	pc := props()[rf.Property]
-	race := pc != nil && pc.Race && rf.Case.Engine == "racesim"
-	b, err := buildBatch(progs, race, "replay")
+	race := rf.Case.Engine == "racesim"
+	lin := rf.Case.Engine == "linsim"
+	b, err := buildBatchX(progs, race, lin, "replay")
 	if err != nil {
 		b.cleanup()
 		return false, err.Error()
 	}
 	defer b.cleanup()
 	job := &proto.Job{Mode: "replay", Property: rf.Property, Case: rf.Case, Seed: seedFromEnv()}
-	outs := runWorkers(b, []*proto.Job{job}, workerEnv(&propCfg{Race: race}, b), 300)
+	if v, ok := rf.Case.Extra["k"].(float64); ok {
+		job.K = int(v)
+	}
+	if v, ok := rf.Case.Extra["seed"].(float64); ok && race {
+		job.Seed = uint64(v)
+	}
+	outs := runWorkers(b, []*proto.Job{job}, workerEnv(race, b), 300)
 	wo := outs[0]
+	if wo.race != "" && race {
+		if !quiet {
+			fmt.Printf("REPRODUCED property=%s oracle=%s (the race detector reported again: %s)\n", rf.Property, rf.Oracle, raceKey(wo.race))
+		}
+		return true, ""
+	}
 	if wo.res == nil {
 		if rf.Oracle == "worker-died-or-hung" {
 			return true, "worker died again: " + clip(wo.err, 400)
